@@ -104,6 +104,26 @@ pub fn replay(id: &str, doc: &Value) -> i32 {
             }
         }
         "C01" | "C11" if !case["resubmitted_parts_of"].is_null() => c01::replay_resubmit(case),
+        "C01" if !case["collides_with"].is_null() => {
+            let a: Result<crate::e2e::Case, _> = serde_json::from_value(case["e2e"].clone());
+            let b: Result<crate::e2e::Case, _> = serde_json::from_value(case["collides_with"].clone());
+            match (a, b) {
+                (Ok(a), Ok(b)) => {
+                    let ia = crate::sut::impl_canonical_flagged(&a.wire, &a.cfg, http::Version::HTTP_2);
+                    let ib = crate::sut::impl_canonical_flagged(&b.wire, &b.cfg, http::Version::HTTP_2);
+                    println!("request A:\n{}\nrequest B:\n{}", a.wire.render(), b.wire.render());
+                    println!("implementation's canonical request of A (header values flagged sensitive, HTTP/2):\n{}", ia.as_ref().map(|x| String::from_utf8_lossy(x).to_string()).unwrap_or_default());
+                    if ia.is_some() && ia == ib {
+                        println!("disagreement: B canonicalises to the very same bytes");
+                        1
+                    } else {
+                        println!("agrees: the canonical requests differ");
+                        0
+                    }
+                }
+                _ => 2,
+            }
+        }
         "C01" if !case["many_parameters"].is_null() => {
             println!("{}", serde_json::to_string_pretty(case).unwrap_or_default());
             println!("re-run: ./check C01 quick (the request is rebuilt from the number of parameters, their place, the carrier and the edit named above)");
